@@ -71,6 +71,78 @@ from vf.common import Violation, assume, exception_key  # noqa: E402,F401
 vf.common._IGNORE_EXC = IgnoreAttempt
 
 
+# --- symbolic hexadecimal formatting --------------------------------------------------
+# ``format(symbolic_int, "04x")`` (also reached from f-strings) realizes the integer in CrossHair, which turns one
+# path into one path per VALUE.  This patch keeps it symbolic for the specs the repository uses.
+import re as _re  # noqa: E402
+import crosshair.core as _chcore  # noqa: E402
+from crosshair.libimpl.builtinslib import SymbolicInt as _SymbolicInt  # noqa: E402
+
+_orig_format_patch = _chcore._PATCH_REGISTRATIONS[format]
+_HEX_SPEC = _re.compile(r"(0?)(\d*)([xXo])")
+
+
+def _hex_digit(d):
+    # d in [0, 15]; no branching: 0-9 -> 48.., 10-15 -> 97..
+    from vf.sym import ite
+    return chr(ite(d < 10, 48 + d, 87 + d))
+
+
+def _symbolic_format(obj, format_spec=""):
+    from vf.sym import constrain, fresh_int
+    with NoTracing():
+        is_sym = isinstance(obj, _SymbolicInt)
+        m = _HEX_SPEC.fullmatch(format_spec) if isinstance(format_spec, str) else None
+    if not (is_sym and m is not None and m.group(3) in ("x", "o")):
+        return _orig_format_patch(obj, format_spec)
+    base = 16 if m.group(3) == "x" else 8
+    width = int(m.group(2)) if m.group(2) else 0
+    pad = "0" if m.group(1) else " "
+    n = obj
+    if n < 0:
+        return _orig_format_patch(obj, format_spec)
+    # number of significant digits (forks on the magnitude only)
+    ndigits = 1
+    while ndigits < 16 and n >= base ** ndigits:
+        ndigits += 1
+    if ndigits >= 16:
+        return _orig_format_patch(obj, format_spec)
+    # digits as fresh variables tied to n by ONE linear equation (division-free: z3 stays in linear arithmetic)
+    digits = [fresh_int(0, base - 1) for _ in range(ndigits)]  # most significant first
+    total = 0
+    for d in digits:
+        total = total * base + d
+    constrain(total == n)
+    out = ""
+    for d in digits:
+        out += _hex_digit(d)
+    if len(out) < width:
+        out = pad * (width - len(out)) + out
+    return out
+
+
+_chcore._PATCH_REGISTRATIONS[format] = _symbolic_format
+
+
+def selfcheck_format() -> None:
+    """The patch must agree with the builtin on boundary values (run at worker start)."""
+    for spec in ("x", "02x", "04x", "08x", "2x", "03o", "o"):
+        for v in (0, 1, 9, 10, 15, 16, 31, 127, 128, 254, 255, 256, 4095, 4096, 0xD7FF, 0xFFFF, 0x10000, 0x10FFFF):
+            m = _HEX_SPEC.fullmatch(spec)
+            base = 16 if m.group(3) == "x" else 8
+            ndigits = 1
+            while v >= base ** ndigits:
+                ndigits += 1
+            out = "".join(_hex_digit((v // (base ** i)) % base) for i in range(ndigits - 1, -1, -1))
+            width = int(m.group(2)) if m.group(2) else 0
+            if len(out) < width:
+                out = ("0" if m.group(1) else " ") * (width - len(out)) + out
+            assert out == format(v, spec), (v, spec, out, format(v, spec))
+
+
+selfcheck_format()
+
+
 # --- solver accounting -----------------------------------------------------------------
 class _SolverStats:
     queries = 0
